@@ -226,6 +226,8 @@ where
             // Swap the Delete and Insert
             (DiffTag::Insert, DiffTag::Delete) | (DiffTag::Delete, DiffTag::Insert) => {
                 ops.swap(pointer - 1, pointer);
+                #[cfg(similar_verif)]
+                verif_repair_swapped(ops, pointer - 1);
                 pointer -= 1;
             }
             // Merge the two ranges
@@ -333,6 +335,8 @@ where
             // Swap the Delete and Insert
             (DiffTag::Insert, DiffTag::Delete) | (DiffTag::Delete, DiffTag::Insert) => {
                 ops.swap(pointer, pointer + 1);
+                #[cfg(similar_verif)]
+                verif_repair_swapped(ops, pointer);
                 pointer += 1;
             }
             // Merge the two ranges
@@ -348,4 +352,55 @@ where
         }
     }
     pointer
+}
+
+/// Verification hook (only with `--cfg similar_verif`): when the repair switch
+/// is on, recomputes the carried indices of a Delete/Insert pair that has just
+/// been swapped (`ops[first]`, `ops[first + 1]`).
+#[cfg(similar_verif)]
+fn verif_repair_swapped(ops: &mut [DiffOp], first: usize) {
+    if !crate::deadline_support::verif_hooks::repair_swap() {
+        return;
+    }
+    match (ops[first], ops[first + 1]) {
+        (
+            DiffOp::Insert {
+                new_index, new_len, ..
+            },
+            DiffOp::Delete {
+                old_index, old_len, ..
+            },
+        ) => {
+            ops[first] = DiffOp::Insert {
+                old_index,
+                new_index,
+                new_len,
+            };
+            ops[first + 1] = DiffOp::Delete {
+                old_index,
+                old_len,
+                new_index: new_index + new_len,
+            };
+        }
+        (
+            DiffOp::Delete {
+                old_index, old_len, ..
+            },
+            DiffOp::Insert {
+                new_index, new_len, ..
+            },
+        ) => {
+            ops[first] = DiffOp::Delete {
+                old_index,
+                old_len,
+                new_index,
+            };
+            ops[first + 1] = DiffOp::Insert {
+                old_index: old_index + old_len,
+                new_index,
+                new_len,
+            };
+        }
+        _ => {}
+    }
 }
